@@ -17,7 +17,7 @@ Act(k, f, o) == [k |-> k, f |-> f, o |-> o]
 Alphabet == {Act("eval", f, -1) : f \in Fns}
        \cup {Act("push", f, o) : f \in PushFns, o \in {-1, 1, 2}}
        \cup {Act("slurp", f, -1) : f \in SlurpFns}
-       \cup {Act(k, "id", -1) : k \in {"blank", "bad", "badopt", "mid", "sigint", "eof", "run", "runpush"}}
+       \cup {Act(k, "id", -1) : k \in {"blank", "bad", "badopt", "mid", "sigint", "eof", "run", "runpush", "runce", "runab", "runfin"}}
 
 RECURSIVE Nest(_)
 Nest(x) == IF x.t # "a" \/ x.v = <<>> THEN 0 ELSE 1 + Nest(x.v[1])
@@ -36,10 +36,13 @@ MCNext == /\ ~over /\ Len(hist) < MaxLen
 MCSpec == MCInit /\ [][MCNext]_vars
 
 (* ------------------------------------------------------------------ properties of the loop (design level) *)
-(* C20 at the level of the loop: an interrupt - at the prompt or while a line runs - changes no level and no slurp,   *)
-(* and the interrupted line prints nothing after its marker                                                           *)
+(* C20 at the level of the loop: an interrupt - at the prompt or while an ordinary line runs - changes no level and no slurp;  *)
+(* an interrupt while `F | repl` collects ends the collection only: the nested loop is entered, nothing else changes            *)
 InterruptTouchesNothing ==
-  [][(last'.a.k = "sigint" \/ last'.intr) => (stack' = stack /\ slurp' = slurp /\ ~over')]_vars
+  [][(last'.a.k = "sigint" \/ (last'.intr /\ last'.a.k # "runpush")) => (stack' = stack /\ slurp' = slurp /\ ~over')]_vars
+InterruptedCollectionStillEnters ==
+  [][(last'.intr /\ last'.a.k = "runpush") =>
+        (Len(stack') = Len(stack) + 1 /\ SubSeq(stack', 1, Len(stack)) = stack /\ slurp' = slurp /\ ~over')]_vars
 (* only ctrl-D leaves a loop, and exactly the innermost one *)
 OnlyEofLeaves ==
   [][Len(stack') < Len(stack) => (last'.a.k = "eof" /\ stack' = SubSeq(stack, 1, Len(stack) - 1))]_vars
@@ -48,10 +51,11 @@ EnclosingKept ==
   [][\A i \in 1 .. Len(stack) - 1 : i <= Len(stack') => stack'[i] = stack[i]]_vars
 (* a level is entered only by a repl line, with the collected outputs as inputs; errors never become inputs *)
 PushOnlyByRepl ==
-  [][Len(stack') > Len(stack) => (last'.a.k \in {"push", "runpush"} /\ Len(stack') = Len(stack) + 1 /\ ~last'.intr)]_vars
+  [][Len(stack') > Len(stack) => (last'.a.k \in {"push", "runpush"} /\ Len(stack') = Len(stack) + 1)]_vars
 PromptOK == over \/ Prompt(stack) # ""
 NeverDeeper == Len(stack) <= MaxStack
 
+MCView == <<stack, slurp, over, Len(hist)>>
 (* ------------------------------------------------------------------ emission *)
 Line(a) == [k |-> a.k, f |-> a.f, o |-> a.o, t |-> Text(a)]
 Emit == IF over \/ Len(hist) = MaxLen
